@@ -231,7 +231,7 @@ def declare(reg):
             "disk-seqs": f"implies(exists(lambda k: {D}), forall(lambda s, k: mem(self.mailbox.g_seqs, s, k) == mem(self.sequences, s, k), 'str', 'int'))",
         },
         modifies=["self.msg_keys", "self.uids", "self.num_msgs", "self.num_recent", "self._msg_key_to_idx", "self._uid_to_idx",
-                  "self.sequences", "self.optional_resync", "*.pending_notifications", "ClientProxy.g_out", "MH.g_keys", "MH.g_seqs", "self.g_db_exists", "self.g_db_uid_vv", "self.g_db_next_uid", "self.g_db_uids", "self.g_db_msg_keys", "self.g_db_subscribed", "self.g_db_num_msgs"],
+                  "self.sequences", "self.optional_resync", "*.pending_notifications", "ClientProxy.g_out", "MH.g_keys", "MH.g_seqs", "self.g_db_seqs", "self.g_db_exists", "self.g_db_uid_vv", "self.g_db_next_uid", "self.g_db_uids", "self.g_db_msg_keys", "self.g_db_subscribed", "self.g_db_num_msgs"],
         loops={
             0: {"invariant": {
                 "picked": "forall(lambda k: (k in to_delete) == (k in self.msg_keys and uid_at(self, k) in some(uid_msg_set) and pos(some(uid_msg_set), uid_at(self, k)) < _i))",
@@ -375,7 +375,7 @@ def declare(reg):
         },
         keeps_invariant=True,
         modifies=["self.last_resync", "self.mtime", "self.optional_resync", "self.msg_keys", "self.uids", "self.num_msgs", "self.num_recent",
-                  "self.sequences", "self.next_uid", "self._msg_key_to_idx", "self._uid_to_idx", "self.attributes", "MH.g_seqs", "*.pending_notifications", "ClientProxy.g_out", "self.g_db_exists", "self.g_db_uid_vv", "self.g_db_next_uid", "self.g_db_uids", "self.g_db_msg_keys", "self.g_db_subscribed", "self.g_db_num_msgs"],
+                  "self.sequences", "self.next_uid", "self._msg_key_to_idx", "self._uid_to_idx", "self.attributes", "MH.g_seqs", "*.pending_notifications", "ClientProxy.g_out", "self.g_db_seqs", "self.g_db_exists", "self.g_db_uid_vv", "self.g_db_next_uid", "self.g_db_uids", "self.g_db_msg_keys", "self.g_db_subscribed", "self.g_db_num_msgs"],
         loops={
             0: {"invariant": {
                 "flags": f"forall(lambda s, k: mem(self.sequences, s, k) == ite(k in new_msg_keys and pos(new_msg_keys, k) < _i, {NF}, mem(lpre(self.sequences), s, k)), 'str', 'int')",
@@ -540,7 +540,7 @@ def declare(reg):
             "untouched-when-false": "implies(not result, same(self.msg_keys, old(self.msg_keys)) and same(self.sequences, old(self.sequences)))",
         },
         keeps_invariant=True,
-        modifies=["self.msg_keys", "self.sequences", "self._msg_key_to_idx", "self._uid_to_idx", "self.mtime", "MH.g_keys", "MH.g_content", "MH.g_seqs", "self.g_db_exists", "self.g_db_uid_vv", "self.g_db_next_uid", "self.g_db_uids", "self.g_db_msg_keys", "self.g_db_subscribed", "self.g_db_num_msgs"],
+        modifies=["self.msg_keys", "self.sequences", "self._msg_key_to_idx", "self._uid_to_idx", "self.mtime", "MH.g_keys", "MH.g_content", "MH.g_seqs", "self.g_db_seqs", "self.g_db_exists", "self.g_db_uid_vv", "self.g_db_next_uid", "self.g_db_uids", "self.g_db_msg_keys", "self.g_db_subscribed", "self.g_db_num_msgs"],
         props=["C03"],
     )
 
@@ -579,19 +579,73 @@ def declare(reg):
         keeps_invariant=True,
         modifies=["self.last_resync", "self.mtime", "self.optional_resync", "self.msg_keys", "self.uids", "self.num_msgs", "self.num_recent", "self.sequences", "self.next_uid",
                   "self._msg_key_to_idx", "self._uid_to_idx", "self.attributes", "MH.g_seqs", "MH.g_keys", "MH.g_content", "*.pending_notifications", "ClientProxy.g_out",
-                  "self.g_db_exists", "self.g_db_uid_vv", "self.g_db_next_uid", "self.g_db_uids", "self.g_db_msg_keys", "self.g_db_subscribed", "self.g_db_num_msgs"],
+                  "self.g_db_seqs", "self.g_db_exists", "self.g_db_uid_vv", "self.g_db_next_uid", "self.g_db_uids", "self.g_db_msg_keys", "self.g_db_subscribed", "self.g_db_num_msgs"],
         loops={0: {"invariant": {
             "flags-so-far": "forall(lambda j: implies(0 <= j and j < _i, mem(self.sequences, seqs[j], msg_key))) and mem(self.sequences, 'Recent', msg_key)",
             "others-kept": "forall(lambda s, k: implies(k != msg_key, mem(self.sequences, s, k) == mem(lpre(self.sequences), s, k)), 'str', 'int')",
+            "disk-untouched": "same(self.mailbox.g_keys, lpre(self.mailbox.g_keys))",
         }}},
         ghost={"assume_pre_of": {"check_new_msgs_and_flags": ["E1-prefix", "E1-count"]},
+               # stepping stones for the resync's E1 preconditions (proved here, then available to the solver): every file that appeared
+               # since entry -- ours or the delivery agent's -- is numbered above every file that was there, hence above every listed key
+               "call_asserts": {"check_new_msgs_and_flags": {
+                   "lemma-listed-keys-were-on-disk": "forall(lambda j: implies(0 <= j and j < len(self.msg_keys), self.msg_keys[j] in old(self.mailbox.g_keys)))",
+                   "lemma-list-unchanged": "same(self.msg_keys, old(self.msg_keys))",
+               }},
                # rely at every await (E1): a delivery agent may add message files with numbers above every existing one,
                # and list them in sequences of its own; nothing else in the folder changes
                "rely": {"havoc": ["MH.g_keys", "MH.g_seqs", "MH.g_content"], "assume": [
-                   "forall(lambda r: subset(old(r.g_keys), r.g_keys), 'ref:MH')",
+                   "forall(lambda r, x: implies(x in old(r.g_keys), x in r.g_keys), 'ref:MH', 'int')",
                    "forall(lambda r, k: implies(k in r.g_keys and k not in old(r.g_keys), forall(lambda j: implies(j in old(r.g_keys), j < k))), 'ref:MH', 'int')",
                    "forall(lambda r, s, k: implies(k in old(r.g_keys), mem(r.g_seqs, s, k) == mem(old(r.g_seqs), s, k)), 'ref:MH', 'str', 'int')",
-               ]}},
+               ], "stable": {
+                   # since entry: files only appeared, and each one that appeared is numbered above everything that was there at entry
+                   "files-only-appear": "forall(lambda x: implies(x in old(self.mailbox.g_keys), x in self.mailbox.g_keys))",
+                   "appeared-files-are-larger": "forall(lambda k, i: implies(k in self.mailbox.g_keys and k not in old(self.mailbox.g_keys) and i in old(self.mailbox.g_keys), i < k))",
+               }}},
         is_async=True,
         props=["C05", "C02", "C04"],
     )
+
+
+def declare_recovery(reg):
+    """check_new_msgs_and_flags after a crash (C11): the folder may differ arbitrarily from the restored UID state."""
+    P = "asimap/mbox.py"
+    main = reg.contracts["Mailbox.check_new_msgs_and_flags"]
+    reg.contract(
+        P, "Mailbox.check_new_msgs_and_flags#recovery", uses_invariant=True,
+        params={"self": "ref:Mailbox", "dont_notify": "opt[ref:Authenticated]", "optional": "bool"}, ret="bool",
+        # no E1 here: after a kill the folder may have lost files (an EXPUNGE that removed files before its commit), gained files
+        # (an APPEND/COPY that added files before its commit) or both; only the restored state's own consistency is assumed
+        requires={
+            # a fact of finite arithmetic, not an assumption about the environment (SMT solvers do not derive pigeonhole facts; see lean/Pigeonhole.lean):
+            # a strictly ascending listing of the folder that is at least as long as the stored key list and differs from it has a key the stored list lacks
+            "pigeonhole": "forall(lambda L: implies(asc(L) and elems(L) == self.mailbox.g_keys and len(L) >= len(self.msg_keys) and not same(L, self.msg_keys), "
+                          "card(self.mailbox.g_keys - elems(self.msg_keys)) >= 1), 'list[int]')",
+        },
+        modifies=list(main.modifies),
+        loops=dict(main.loops), locals_={"new_msgs": "dict[int,opaque:EmailMessage]", "notifications": "list[str]", "msg_sequences": "set[str]", "msg_seqs": "defaultdict[str,set[int]]"},
+        ghost={
+            "inv_except": ["seq-keys-exist"],
+            "harness": "harness.persist:CrashRecovery",
+            "cut": {"before_stmt": r"self\._rebuild_index_dicts\(\)", "asserts": {
+                # UIDNEXT is above every UID ever revealed: it never goes down, whatever the folder looks like
+                "uidnext-never-decreases": "self.next_uid >= old(self.next_uid)",
+                "uidnext-above-every-uid": "forall(lambda j: implies(0 <= j and j < len(self.uids), self.uids[j] < self.next_uid))",
+                # no (UIDVALIDITY, UID) pair is rebound: a UID in the new list is either bound to the key it was bound to before, or fresh
+                "uid-kept-or-fresh": "forall(lambda j: implies(0 <= j and j < len(self.uids), self.uids[j] >= old(self.next_uid) or "
+                                     "(j < len(old(self.uids)) and self.uids[j] == old(self.uids)[j] and j < len(self.msg_keys) and j < len(old(self.msg_keys)) and self.msg_keys[j] == old(self.msg_keys)[j])))",
+                "uid-vv-kept": "self.uid_vv == old(self.uid_vv)",
+            }},
+        },
+        is_async=True,
+        props=["C11"],
+        note="second contract on check_new_msgs_and_flags without environment assumption E1 (crash recovery: the folder may have shrunk); verified up to the point "
+             "where the UID allocation is complete (cut in front of `self._rebuild_index_dicts()`)",
+    )
+    reg.properties.setdefault("C11", {}).setdefault("bounded", []).append(
+        {"name": "crash-leaves-folder-changed", "module": "harness.persist", "func": "CrashRecovery"})
+    reg.properties.setdefault("C11", {}).setdefault("bounded", []).append(
+        {"name": "crash-keeps-acknowledged-flags", "module": "harness.persist", "func": "CrashFlags"})
+    for pid in ("C11", "C02", "C13"):
+        reg.properties.setdefault(pid, {}).setdefault("lean", []).append("lean/Pigeonhole.lean")
